@@ -19,8 +19,6 @@ def main(argv):
     rng = c.rng
     # ---- integers: exhaustive for 1..2 (quick) / 1..3 (thorough) content octets, neighbourhoods of every boundary, random
     ints = set(range(-32768, 32768))
-    if thorough:
-        ints |= set(range(-2 ** 23, 2 ** 23, 1))
     w = 2 ** 16 if thorough else 2 ** 10
     for k in (7, 8, 15, 16, 23, 24, 31, 32, 39, 40, 47, 48, 55, 56, 63):
         for s in (1, -1):
@@ -65,6 +63,40 @@ def main(argv):
     idx = rng.sample(range(len(lines)), 200)
     codec.crosscheck_extraction(c, cd, [lines[i] for i in idx] + [redecode[i][1] for i in idx[:100] if i < len(redecode)],
                                 [m[i] for i in idx] + [m2[i] for i in idx[:100] if i < len(redecode)])
+
+    if thorough:
+        # every INTEGER of three content octets, in slices (memory stays flat); same comparisons as above
+        step = 2 ** 20
+        for lo in range(-2 ** 23, 2 ** 23, step):
+            vs = [v for v in range(lo, lo + step) if not -32768 <= v < 32768]
+            ls = ["enc_int %d" % v for v in vs]
+            mm, rr, dd = cd.run(ls)
+            back = []
+            for v, ml, rl, dl in zip(vs, mm, rr, dd):
+                want = "OK " + ber.enc_int(v).hex()
+                if not (ml == rl == dl == want):
+                    for prof, o in (("release", rl), ("debug", dl)):
+                        if o != ml:
+                            dis += 1
+                            if not any(b.startswith("correspondence") for b in c.broken):
+                                c.broken = list(c.broken) + ["correspondence enc_int %d: model `%s` impl(%s) `%s`" % (v, ml, prof, o)]
+                        if o != want:
+                            c.violation("INTEGER %d is encoded as %s, minimal X.690 encoding is %s (%s build)" % (v, o, want[3:], prof),
+                                        {"cmd": "enc_int %d" % v, "profile": prof, "expected": want, "observed": o}, key="int-encode-not-minimal")
+                if rl.startswith("OK "):
+                    back.append((v, "dec_int " + rl[3:]))
+            m3, r3, d3 = cd.run([x[1] for x in back])
+            for (v, ln), ml, rl, dl in zip(back, m3, r3, d3):
+                w3 = "OK int:%d rest=-" % v
+                if not (ml == rl == dl == w3):
+                    for prof, o in (("release", rl), ("debug", dl)):
+                        if o != w3:
+                            c.violation("INTEGER %d encodes then decodes to `%s` (%s build)" % (v, o, prof),
+                                        {"cmd": ln, "profile": prof, "expected": w3, "observed": o}, key="int-roundtrip")
+                    if ml != rl:
+                        dis += 1
+            c.count_bulk(len(vs), len(vs))
+            del vs, ls, mm, rr, dd, back, m3, r3, d3
 
     # ---- OBJECT IDENTIFIER: the library's OID encoder is TryFrom<&str>; boundary sub-identifiers must come out minimal and read back
     oid_texts = []
